@@ -92,6 +92,11 @@ static void upipe_htons_input(struct upipe *upipe, struct uref *uref,
         uref_free(uref);
         return;
     }
+    /* nothing to swap in an empty block */
+    if (unlikely(!size)) {
+        upipe_htons_output(upipe, uref, upump_p);
+        return;
+    }
     /* copy ubuf if shared or not 16b-unaligned or segmented */
     bufsize = -1;
     if (!ubase_check(uref_block_write(uref, 0, &bufsize, &buf)) ||
